@@ -1011,7 +1011,8 @@ func (s *vfSM) doClear(live bool, vs *[]*vfViol) {
 		s.st.clearBufferedOther = true
 	}
 	liveBefore := s.liveToks()
-	s.drainTick() // the applier restarted by Clear must not find a tick: whether it would take it before our halt is a coin flip
+	synctest.Wait() // access batches already handed to the policy goroutine are absorbed before Clear, not after it
+	s.drainTick()   // the applier restarted by Clear must not find a tick: whether it would take it before our halt is a coin flip
 	if live {
 		s.resume()
 	} else {
@@ -1061,6 +1062,25 @@ func (s *vfSM) doClear(live bool, vs *[]*vfViol) {
 		tot := m.Hits() + m.Misses() + m.KeysAdded() + m.KeysUpdated() + m.KeysEvicted() + m.CostAdded() + m.CostEvicted() + m.SetsDropped() + m.SetsRejected()
 		if tot != 0 {
 			s.add(vs, vfV("C15", "metrics-not-reset", "metrics after Clear: %s", m.String()))
+		}
+	}
+	// "as a fresh one would": a fresh cache has no access-frequency history. Checked only when nothing but Clear ran
+	// (stand-in variant); partially filled Get stripes are not flushed by Clear and cannot have been counted yet.
+	if !live {
+		p := s.c.cachePolicy
+		p.Lock()
+		stale := int64(0)
+		staleKey := uint64(0)
+		for k := uint64(1); k <= uint64(s.cfg.Keys); k++ {
+			kh, _ := s.c.keyToHash(k)
+			if e := p.admit.Estimate(kh); e > stale {
+				stale, staleKey = e, k
+			}
+		}
+		incrs := p.admit.incrs
+		p.Unlock()
+		if stale > 0 || incrs != 0 {
+			s.add(vs, vfV("C15", "frequency-state-not-reset", "after Clear key %d still has access-frequency estimate %d (recorded accesses since reset: %d); a fresh cache has none, so admission decisions differ", staleKey, stale, incrs))
 		}
 	}
 	em := s.c.storedItems.(*shardedMap[uint64]).expiryMap
